@@ -207,6 +207,9 @@ def units(tier):
     _wrap(us, "C14.saver.writes_exactly_the_save_range", CU.unit_saver)
     from props import c14_merge as MG
     _wrap(us, "C14.merge_redox.removes_exactly_the_conflicting_entries", MG.unit_merge_redox, "C14")
+    from props import c14_modify as MD
+    _wrap(us, "C14.read_raw.component_blocks_start_from_the_stored_component", MD.unit_modify_starts_from_stored)
+    _wrap(us, "C14.StorageBinList.Read_forgets_previous_cells", MD.unit_storagebin_read)
     from props import c14_components as CC
     _wrap(us, "C14.list_components.every_defined_reactant_contributes", CC.unit_list_components)
     return us
